@@ -66,7 +66,8 @@ def gen(S, tier):
         t0 = apptree.resolved_target(c0)
         cands = [(p0, t0, ch0 + ([t0] if t0 is not c0 else []))]
     path, cmd, chain = c.pick(cands)
-    use_tail = w.chance(0.3)
+    # a '--' tail needs somewhere to go: the trailing multi-valued argument
+    use_tail = w.chance(0.3) and any(a[0] == "rest" for a in cmd["args"])
     tail, exp_args, exp_opts = apptree.gen_line(w, chain, fill_all=use_tail)
     kinds = [k for k in SWITCHES if w.chance(0.3)]
     # at most one verbosity switch
